@@ -30,8 +30,8 @@ def validate(spec):
         need(t not in tables, 'duplicate table %s' % t)
         tables.add(t)
     for app, name, m in S.iter_models(spec):
-        cols = {'id'}
-        fnames = {'id'}
+        cols = {S.pk_of(m)}
+        fnames = {S.pk_of(m)}
         for f in m['fields']:
             need(f['name'] not in fnames, 'duplicate field')
             fnames.add(f['name'])
@@ -87,7 +87,7 @@ def apply(spec, mut, strict=True):
     if k == 'AddField':
         m = _model(spec, mut)
         f = copy.deepcopy(mut['field'])
-        need(S.get_field(m, f['name']) is None and f['name'] != 'id', 'field exists')
+        need(S.get_field(m, f['name']) is None and f['name'] != S.pk_of(m), 'field exists')
         if f['kind'] != 'ManyToMany' and not f['null']:
             need(mut.get('initial') is not None, 'initial required')
         m['fields'].append(f)
@@ -129,9 +129,16 @@ def apply(spec, mut, strict=True):
             need(mut.get('initial') is not None, 'initial required')
     elif k == 'RenameField':
         m = _model(spec, mut)
+        if mut['old'] == S.pk_of(m):
+            # renaming the (implicit) primary key
+            need(S.get_field(m, mut['new']) is None and not mut.get('db_column'), 'pk rename')
+            m['pk'] = mut['new']
+            if strict:
+                validate(spec)
+            return spec
         f = S.get_field(m, mut['old'])
         need(f is not None, 'no field')
-        need(S.get_field(m, mut['new']) is None and mut['new'] != 'id', 'target exists')
+        need(S.get_field(m, mut['new']) is None and mut['new'] != S.pk_of(m), 'target exists')
         f['name'] = mut['new']
         if f['kind'] == 'ManyToMany':
             f['db_table'] = mut.get('db_table') or None
